@@ -15,8 +15,8 @@ class C14(Prop):
     coq_targets = ["Run/EvalC14.vo"]
     bins = ["h_ignore"]
     trusted = [
-        "partial: independence from the directory listing order is checked by running the model under two listing orders against the real "
-        "crate (which sees the kernel's order), not by a theorem; completeness and termination are proved for listings with absolute, distinct paths",
+        "completeness, termination, exactness and independence from the listing order are proved for listings with absolute, distinct paths "
+        "whose origin is a directory; the model is additionally run under two listing orders against the real crate (which sees the kernel's order)",
         "modelled, not verified: tokio read_dir/metadata (flat listing), gix_config parsing of .git/config (core.excludesFile is an input), "
         "IgnoreFilter model of C03",
     ]
